@@ -290,6 +290,8 @@ def run_rational(rng, obs):
         k = rng.randrange(n)
         text += '\n%s %s %s' % (names[k], rng.choice(['<=', '>=']), fmt(rng.choice([3.0, -1.0, 0.0])))
     obs.desc = {'text': text, 'variables': variables if isinstance(variables, str) else names, 'form': form}
+    if rng.random() < 0.5:
+        single_case_first(obs, rng, text, variables, names, [[sc_ * rng.gauss(0, 2) for _ in range(n)] for sc_ in (1.0, 1.0, 5.0, 0.2) for _ in range(40)])
     try:
         res = simplify(text, variables=variables, all=True)
     except Exception as e:
@@ -438,6 +440,9 @@ def run_exact(rng, obs):
         lines.append(('%s*%s/%s %s %s' if form == 'quot' else '%s*%s*%s %s %s') % (fmt(c), names[i], names[j], cmp, fmt(d)))
     text = '\n'.join(lines)
     obs.desc = {'text': text, 'variables': variables if isinstance(variables, str) else names, 'form': form}
+    if form != 'linear' and rng.random() < 0.6:
+        g_ = [_F(k, 2) for k in range(-12, 13)]
+        single_case_first(obs, rng, text, variables, names, [[rng.choice(g_) for _ in range(n)] for _ in range(150)], exact=True)
     try:
         res = simplify(text, variables=variables, all=True)
     except Exception as e:
@@ -484,6 +489,27 @@ def run_exact(rng, obs):
               merged_to_not_equal=any('!=' in cc for cc in cases), equalities_in=0, equalities_out=[sum(1 for l in T.lines(cc) if T.split(l)[1] in ('=', '==')) for cc in cases])
     obs.nontrivial = len(seen) == 2 and judged_on_boundary >= 3
     obs.notes = {'cases': list(cases), 'boundary_points': judged_on_boundary}
+
+
+def single_case_first(obs, rng, text, variables, names, pts, exact=False):
+    """simplify WITHOUT all=True returns one of the cases: every point that satisfies it must satisfy the input (a case is a sufficient
+    condition).  Called before the all=True call on the same text: the two calls must not interfere."""
+    from mystic.symbolic import simplify
+    try:
+        one = simplify(text, variables=variables)
+    except Exception:
+        return
+    if not isinstance(one, str) or not one.strip():
+        return
+    bad = []
+    for x in pts:
+        b = exact_satisfied(one, names, x) if exact else T.satisfied3(one, names, x)
+        if b is not True: continue
+        a = exact_satisfied(text, names, x) if exact else T.satisfied3(text, names, x)
+        if a is False and len(bad) < 3:
+            bad.append({'x': [float(v) for v in x], 'input_holds': False, 'cases_hold': [True]})
+    obs.event('single_case_calls')
+    obs.check(not bad, 'same:a single returned case (all=False) admits only points of the input', text=text, case=one, witnesses=bad)
 
 
 def run_hostile(kind, rng, obs):
